@@ -28,6 +28,16 @@ def sun_selfcheck(rep):
     return r
 
 
+def calendar_and_ra_models(rep):
+    """design level: the Julian-day formula is the civil day count plus a constant for every date 1583..2399 (no calendar-
+    induced jumps) and the RA unwrapping yields delta1 = 2 rate, delta2 = 0 wherever the 360 -> 0 wrap falls; both with a
+    Legacy* switch that TLC must refute (D1; a seeded century slip)"""
+    rep.add_tlc(tlc_must_pass("JulianDay", "JulianDayMC.cfg", workers=2, timeout=900))
+    rep.add_tlc(tlc_must_fail("JulianDay", "JulianDayLegacy.cfg", expect="MatchesDayCount", workers=2))
+    rep.add_tlc(tlc_must_pass("RaInterp", "RaInterpMC.cfg", workers=4, timeout=900))
+    rep.add_tlc(tlc_must_fail("RaInterp", "RaInterpLegacy.cfg", expect="FirstDifference", workers=2))
+
+
 def validate(rep, pid, sub, gen_args, heap="6g", max_violations=12, stateful=False, timeout=3000):
     wd = workdir(pid)
     trace = os.path.join(wd, f"trace_{sub}.ndjson")
